@@ -320,7 +320,7 @@ func cmdRun(args []string) int {
 			continue
 		}
 		for _, cv := range hs.Covers {
-			if res.Covers[cv] == 0 {
+			if res.Covers[cv] == 0 && len(res.Violations) == 0 {
 				fail(2, "VACUOUS: mandatory cover point not reached: "+cv)
 			}
 		}
@@ -612,6 +612,7 @@ func nativeReplay(spec *Spec, specDir, replayPath string, v *Violation) (bool, s
 
 import (
 	"fmt"
+	"runtime/debug"
 	"testing"
 
 	"github.com/polynetwork/poly/zzsym"
@@ -620,7 +621,7 @@ import (
 func TestZZReplay(t *testing.T) {
 	defer func() {
 		if r := recover(); r != nil {
-			fmt.Printf("ZZSYM-PANIC %%v\n", r)
+			fmt.Printf("ZZSYM-PANIC %%v\n%%s\n", r, debug.Stack())
 			t.Fatalf("panic: %%v", r)
 		}
 	}()
